@@ -135,7 +135,7 @@ pub fn scenario(seed: u64, stepping: Option<Stepping>) -> Made {
         match rng.below(10) {
             0 | 1 => {
                 let name = rng.pick(&variants).clone();
-                let timeout = *rng.pick(&[None, None, Some(1u64), Some(999), Some(1000), Some(1500), Some(7000), Some(3_600_000)]);
+                let timeout = *rng.pick(&[None, None, None, Some(1u64), Some(999), Some(1000), Some(1500), Some(7000), Some(3_600_000), Some(1001), Some(1003), Some(3002)]);
                 if let Some(c) = w.resolve_hostname(h, &name, timeout) {
                     searches.push((c, name.clone(), w.now(), timeout));
                 }
@@ -367,6 +367,11 @@ pub fn monitor(made: &Made, l: &mut Local) {
             if life.until <= *t_start + sl + 1 || life.until + sl + 1 >= t_end || life.from + 1 > life.until {
                 continue;
             }
+            // received again at the very instant it ran out: whether the daemon saw it end or saw it refreshed is the
+            // order of two things at one instant
+            if addr_lives.iter().any(|(oid, other)| *oid == *id && other.from == life.until) {
+                continue;
+            }
             // the record must have been known to this search (received or cached while it was open)
             l.act("H2-complete");
             let ip = ip_of(id).unwrap();
@@ -464,7 +469,10 @@ pub fn monitor(made: &Made, l: &mut Local) {
 }
 
 pub fn run_one(seed: u64, l: &mut Local) {
-    let made = scenario(seed, None);
+    // (a sixth of the histories on a daemon that is woken up to 2 or 40 ms late, as on a loaded machine: every
+    // rule allows for the lateness the stepping brings)
+    let late = if seed % 6 == 5 { Some(Stepping::Oversleep([2u64, 40][(seed / 6 % 2) as usize])) } else { None };
+    let made = scenario(seed, late);
     l.evaluations += 1;
     let w = &made.world;
     l.count("daemon_iterations", w.total_iterations);
@@ -484,7 +492,7 @@ pub fn run_one(seed: u64, l: &mut Local) {
 
 pub fn run(report: &Report, tier: &Tier) {
     report.set_rule(
-        "hostname histories: resolve_hostname / stop with the name in lower, upper and mixed case, timeouts {none, 1, 999, 1000, 1500, 7000 ms, 1 h}, \
+        "hostname histories: resolve_hostname / stop with the name in lower, upper and mixed case, timeouts {none, 1, 999, 1000, 1001, 1003, 1500, 3002, 7000 ms, 1 h}, \
          a responder that announces 1..2 addresses at a time (IPv4/IPv6, three per family, owner spelled in any case, TTLs {1,2,10,120} s, \
          on one of up to two interfaces), withdraws them by goodbye, forgets them, answers the daemon's queries or not, foreign records mixed in; \
          observed 150 s past the last call; lazy and eager stepping; distinct by (stepping, operation kinds, topology)",
